@@ -52,13 +52,13 @@ var Texts = map[string]string{
   container fromsub { leaf x { type string; } }
 }`,
 	// a submodule reachable by two include paths
-	"m6": `module m6 { namespace "urn:m6"; prefix m6; include s6a; include s6b; container top6 { uses ga; uses gb; } }`,
+	"m6":  `module m6 { namespace "urn:m6"; prefix m6; include s6a; include s6b; container top6 { uses ga; uses gb; } }`,
 	"s6a": `submodule s6a { belongs-to m6 { prefix m6; } include s6b; grouping ga { leaf la { type string; } } container ca { uses gb; } }`,
 	"s6b": `submodule s6b { belongs-to m6 { prefix m6; } grouping gb { leaf lb { type string; } } container cb; }`,
 	// two revisions of one module and an importer without revision-date: the import must follow the latest loaded
 	"bb-r1": `module bb { namespace "urn:bb"; prefix bb; revision 2020-01-01; grouping g { leaf old { type string; } } typedef t { type string; } }`,
 	"bb-r2": `module bb { namespace "urn:bb"; prefix bb; revision 2021-01-01; grouping g { leaf new { type string; } } typedef t { type int32; } }`,
-	"ib": `module ib { namespace "urn:ib"; prefix ib; import bb { prefix bb; } container c { uses bb:g; } leaf l { type bb:t; } typedef tl { type bb:t; } leaf k { type tl; } }`,
+	"ib":    `module ib { namespace "urn:ib"; prefix ib; import bb { prefix bb; } container c { uses bb:g; } leaf l { type bb:t; } typedef tl { type bb:t; } leaf k { type tl; } }`,
 	// accepted by the loader, rejected by Process: the errors must come back on every run
 	"e5": `module e5 { namespace "urn:e5"; prefix e5;
   typedef small { type int8 { range "1..500"; } }
@@ -120,7 +120,7 @@ var Texts = map[string]string{
 	"x-top-level-container": `container stray { typedef st { type other; } typedef st2 { type p:other; } leaf l { type st; } }`,
 	// builds as a grouping node, refused by the set because it is not a module
 	"x-top-level-grouping": `grouping g { typedef broken2 { type nosuch; } leaf l { type string; } }`,
-	"x-syntax": `module xs { namespace "urn:xs"; prefix xs; container c { leaf l { type string; }`,
+	"x-syntax":             `module xs { namespace "urn:xs"; prefix xs; container c { leaf l { type string; }`,
 	"x-typedefs-then-rejected": `module xt { namespace "urn:xt"; prefix xt;
   container c { typedef tt { type nosuch; } typedef ok { type string; } }
   bogus-statement here;
@@ -410,9 +410,14 @@ func exec(kind byte, body []byte) *core.Verdict {
 
 // Histories lets another property's check run the histories of the second catalogue that load one of the
 // given texts: what the property promises must hold however the set was arrived at.
+var first = map[string]bool{"i1": true, "t2": true, "t2b": true, "t2c": true, "a3": true, "m4": true, "s4": true, "bb-r1": true, "bb-r2": true, "ib": true, "e5": true}
+
 func Histories(r *core.Run, prop string, texts ...string) {
 	core.CaseSuffix = `,"prop":"` + prop + `"}`
 	keep := func(i int64, body string) bool {
+		if strings.Contains(body, `"ok":false`) {
+			return false // what a refused load leaves behind is C18's own question
+		}
 		for _, t := range texts {
 			if strings.Contains(body, `"text":"`+t+`"`) {
 				return true
@@ -420,7 +425,13 @@ func Histories(r *core.Run, prop string, texts ...string) {
 		}
 		return false
 	}
-	r.DirectionA("session", core.TLCOpts{Module: "MCSession", Cfg: "MCSession_quick2.cfg", Workers: 12, HeapGB: 16, Timeout: 0}, keep)
+	cfg := "MCSession_quick2.cfg"
+	for _, t := range texts {
+		if first[t] {
+			cfg = "MCSession_quick.cfg"
+		}
+	}
+	r.DirectionA("session", core.TLCOpts{Module: "MCSession", Cfg: cfg, Workers: 12, HeapGB: 16, Timeout: 0}, keep)
 	core.CaseSuffix = ""
 }
 
